@@ -492,7 +492,9 @@ def stitchDownP (s : Store) : Nat → Option Str → List IndexEntry × List Err
       else
         let m := stitchDownP s b r.2
         (r.1 ++ m.1, bandErrs s b ++ m.2)
-    else stitchDownP s b last
+    else
+      let m := stitchDownP s b last
+      (m.1, (if isFileP s (.hunk b 0) then [Err.bandHeadMissing b] else []) ++ m.2)
 
 theorem run_stitchDown {s : Store} (b : Nat) :
     ∀ (last : Option Str) (evs : List Event) (w : World), Quiet s evs w →
@@ -514,8 +516,15 @@ theorem run_stitchDown {s : Store} (b : Nat) :
         refine ⟨w4, by simp [hcl, Prog.run_bind, h4], ?_⟩
         simp only [hcl, Bool.false_eq_true, if_false, evsOf_append, List.append_assoc]
         exact q4
-    · obtain ⟨w2, h2, q2⟩ := ih last evs w1 q1
-      exact ⟨w2, by simpa [hex] using h2, by simpa [hex] using q2⟩
+    · obtain ⟨w2, h2, q2⟩ := run_unwrapOr_isFile q1 (.hunk b 0) false
+      simp only [hex, Bool.false_eq_true, if_false, Prog.run_bind, h2]
+      by_cases hk : isFileP s (.hunk b 0) = true
+      · obtain ⟨w3, h3, q3⟩ := ih last _ _ (q2.emit (.error (.bandHeadMissing b)))
+        refine ⟨w3, by simpa [hk, logError, Prog.run_bind] using h3, ?_⟩
+        simp only [hk, if_true, List.singleton_append, evsOf_cons]
+        exact q3
+      · obtain ⟨w3, h3, q3⟩ := ih last evs w2 q2
+        exact ⟨w3, by simpa [hk] using h3, by simpa [hk] using q3⟩
 
 /-- `stitchAll` on a store: entries, and the errors reported (in order). -/
 def stitchAllP (s : Store) (n : Nat) : List IndexEntry × List Err :=
